@@ -220,9 +220,13 @@ func (p *refP) lit(word string) bool {
 	return false
 }
 
+// refDeep: nesting the reference decoder follows beyond its default of 8 levels (set by the scale harnesses,
+// whose documents are concrete in shape; 0 otherwise, so that symbolic documents stay bounded).
+var refDeep int
+
 func (p *refP) value(depth int) mval {
 	p.ws()
-	if p.i >= len(p.s) || depth > 8 {
+	if p.i >= len(p.s) || (depth > 8 && depth > refDeep) {
 		return p.fail()
 	}
 	c := p.s[p.i]
